@@ -17,7 +17,8 @@ State/heap level laws of the capture mechanism of the (repaired) interpreter mod
    stack and stays shared;
 4. `frame_relative`, `oldSlot_differs` — the captured slot is relative to the running frame;
 5. `return_closes_frame`, `push_inv`, `pop_inv`, `pop_breaks_bound`, `clearUntil_inv`,
-   `closeUpvalue_inv`, `closure_inv`, `readUpvalue_inv`, `setUpvalue_inv`, `step_core`,
+   `closeUpvalue_inv`, `scope_end_closes_all` (`ScopeExit`), `closure_inv`, `readUpvalue_inv`,
+   `setUpvalue_inv`, `step_core`,
    `exec_core'`, `run_core'`, `upInv_of_compiled_runs_Full` — the invariant is kept;
 6. compiler side: `closure_label_unique_partial`, `closure_card_dispatch`, `closure_object`,
    `callScript_enters`, `closureHandle_same_fn`, `closureHandle_same_path`, `addUpvalue_index`,
@@ -354,7 +355,8 @@ theorem shrink_inv {s s' : VmState} (hinv : UpInv s) (hfree : TopFree s) (hh : s
   omega
 
 /-- `pop` keeps the invariant when the top slot is not captured (scope exit emits `CloseUpvalue`
-    instead of `Pop` for a captured local; see `closeUpvalue_inv`) -/
+    instead of `Pop` for a captured local, which closes and removes the slot: `closeUpvalue_inv`,
+    `scope_end_closes_all`) -/
 theorem pop_inv {s : VmState} (hinv : UpInv s) (hfree : TopFree s) : UpInv (Vm.pop.go s).2 :=
   shrink_inv hinv hfree rfl rfl (pop_count _)
 
@@ -367,7 +369,7 @@ theorem clearUntil_inv {s : VmState} (hinv : UpInv s) (k : Nat)
 theorem go_closeUpvalue (ip : Nat) (s : VmState) :
     (Instr.closeUpvalue ip).go s =
       if s.stack.count = 0 then (.error .invalidArgument, s)
-      else (.ok { ip }, closeState (s.stack.count - 1) s) := by
+      else (.ok { ip }, { closeState (s.stack.count - 1) s with stack := s.stack.pop.1 }) := by
   unfold Instr.closeUpvalue
   simp only [go_bind, go_get]
   by_cases h : s.stack.count = 0
@@ -376,35 +378,36 @@ theorem go_closeUpvalue (ip : Nat) (s : VmState) :
     simp only [hb, if_true, go_bind, go_throwE]
   · have hb : (s.stack.count == 0) = false := by simp [h]
     rw [if_neg h]
-    simp only [hb, Bool.false_eq_true, if_false, go_bind, go_pure, go_closeUpvalues]
+    simp only [hb, Bool.false_eq_true, if_false, go_bind, go_pure, go_closeUpvalues, go_pop]
+    rfl
 
-/-- **`CloseUpvalue` (scope exit of a captured local) keeps the invariant and frees the top slot**,
-    so that the `Pop`/`clear_until` that discards the slot afterwards keeps it too; the closed
-    upvalue holds the last value of the variable -/
+/-- **`CloseUpvalue` (scope exit of a captured local; repaired: it also removes the slot) keeps the
+    invariant without any side condition**: every open upvalue of the top slot is closed with the
+    last value of the variable, then the slot is popped -/
 theorem closeUpvalue_inv {s : VmState} (hinv : UpInv s) (ip : Nat) :
-    UpInv ((Instr.closeUpvalue ip).go s).2 ∧ TopFree ((Instr.closeUpvalue ip).go s).2 ∧
-    UpInv (Vm.pop.go ((Instr.closeUpvalue ip).go s).2).2 ∧
+    UpInv ((Instr.closeUpvalue ip).go s).2 ∧
+    (s.stack.count ≠ 0 → ((Instr.closeUpvalue ip).go s).2.stack.count = s.stack.count - 1) ∧
     (∀ u ∈ s.openUpvalues, upvalueSlot s.heap u = some (s.stack.count - 1) → s.stack.count ≠ 0 →
-      ((Instr.closeUpvalue ip).go s).2.heap.get u = some (.upvalue (.closed s.stack.last))) := by
+      ((Instr.closeUpvalue ip).go s).2.heap.get u = some (.upvalue (.closed s.stack.last)) ∧
+      u ∉ ((Instr.closeUpvalue ip).go s).2.openUpvalues) := by
   rw [go_closeUpvalue]
   by_cases h : s.stack.count = 0
   · simp only [h, if_true]
-    have hfree : TopFree s := fun a ha hs => by
-      have := hinv.bound a ha _ hs; omega
-    exact ⟨hinv, hfree, pop_inv hinv hfree, fun _ _ _ h0 => absurd rfl h0⟩
+    exact ⟨hinv, fun h0 => absurd rfl h0, fun _ _ _ h0 => absurd rfl h0⟩
   · simp only [h, if_false]
     have hcp := close_preserves_value hinv (s.stack.count - 1)
     have hfree : TopFree (closeState (s.stack.count - 1) s) := by
       intro a ha hs
       have := hcp.2.2.2.2.2.2.2.2.2.2 a ha _ hs
       exact absurd this (Nat.lt_irrefl _)
-    refine ⟨hcp.2.2.2.2.2.2.2.2.2.1, hfree, pop_inv hcp.2.2.2.2.2.2.2.2.2.1 hfree, ?_⟩
+    refine ⟨shrink_inv hcp.2.2.2.2.2.2.2.2.2.1 hfree rfl rfl (pop_count _), fun _ => pop_count _, ?_⟩
     intro u hu hs _
-    rw [(hcp.2.2.2.2.2.1 u hu _ hs (Nat.le_refl _)).1]
+    have h1 := hcp.2.2.2.2.2.1 u hu _ hs (Nat.le_refl _)
     have : s.stack.get (s.stack.count - 1) = s.stack.last := by
       unfold VStack.get VStack.last
       rw [if_neg (by omega), if_pos (by omega)]
-    rw [this]
+    rw [this] at h1
+    exact h1
 
 /-- without `CloseUpvalue`, `Pop` of a captured slot breaks `UpBound`: the bound is *not* an
     invariant of arbitrary instruction sequences, only of well-scoped ones -/
@@ -917,6 +920,206 @@ theorem oldSlot_differs (fr : Frame) (index : Nat) (h : fr.stackOffset > 0) :
     oldSlot fr index ≠ fr.stackOffset + index := by
   unfold oldSlot; omega
 
+/-! ## 5a. `scope_end`: a run of `CloseUpvalue`/`Pop` instructions -/
+
+/-- the instruction sequence `scope_end` emits for the locals that go out of scope, innermost
+    first: `CloseUpvalue` (`true`) for a captured local, `Pop` (`false`) otherwise -/
+def scopeExit : List Bool → M Unit
+  | [] => pure ()
+  | true :: r => do let _ ← Instr.closeUpvalue 0; scopeExit r
+  | false :: r => do let _ ← Instr.pop 0; scopeExit r
+
+/-- what leaving a scope with `n` locals does to the machine -/
+structure ScopeExit (n : Nat) (s s' : VmState) : Prop where
+  /-- the `n` slots are gone … -/
+  count : s'.stack.count = s.stack.count - n
+  /-- … everything below is untouched -/
+  below_get : ∀ i, i < s.stack.count - n → s'.stack.get i = s.stack.get i
+  frames_eq : s'.frames = s.frames
+  globals_eq : s'.globals = s.globals
+  /-- every upvalue of one of the `n` slots is closed, holding its slot's value -/
+  closed : ∀ u ∈ s.openUpvalues, ∀ i, upvalueSlot s.heap u = some i → s.stack.count - n ≤ i →
+    s'.heap.get u = some (.upvalue (.closed (s.stack.get i))) ∧ u ∉ s'.openUpvalues
+  /-- every other open upvalue stays open and unchanged -/
+  kept : ∀ u ∈ s.openUpvalues, ∀ i, upvalueSlot s.heap u = some i → i < s.stack.count - n →
+    u ∈ s'.openUpvalues ∧ s'.heap.get u = s.heap.get u
+  /-- every other object is unchanged -/
+  other : ∀ b, b ∉ s.openUpvalues → s'.heap.get b = s.heap.get b
+  open_eq : s'.openUpvalues = s.openUpvalues.filter (below s.heap (s.stack.count - n))
+  inv : UpInv s'
+
+theorem ScopeExit.zero {s : VmState} (hinv : UpInv s) : ScopeExit 0 s s where
+  count := rfl
+  below_get _ _ := rfl
+  frames_eq := rfl
+  globals_eq := rfl
+  closed u hu i hi hle := by have := hinv.bound u hu i hi; omega
+  kept u hu i hi _ := ⟨hu, rfl⟩
+  other _ _ := rfl
+  open_eq := by
+    symm; apply List.filter_eq_self.mpr
+    intro a ha
+    obtain ⟨i, hi⟩ := hinv.core.open_ a ha
+    have := hinv.bound a ha i hi
+    simp only [below, hi, decide_eq_true_eq]; omega
+  inv := hinv
+
+/-- one `CloseUpvalue` -/
+theorem ScopeExit.close {s : VmState} (hinv : UpInv s) (h0 : s.stack.count ≠ 0) :
+    ScopeExit 1 s { closeState (s.stack.count - 1) s with stack := s.stack.pop.1 } := by
+  have hcp := close_preserves_value hinv (s.stack.count - 1)
+  have hfree : TopFree (closeState (s.stack.count - 1) s) := by
+    intro a ha hs
+    exact absurd (hcp.2.2.2.2.2.2.2.2.2.2 a ha _ hs) (Nat.lt_irrefl _)
+  exact {
+    count := pop_count _
+    below_get := fun i hi => pop_get_lt _ hi
+    frames_eq := rfl
+    globals_eq := rfl
+    closed := fun u hu i hi hle => hcp.2.2.2.2.2.1 u hu i hi hle
+    kept := fun u hu i hi hlt => hcp.2.2.2.2.2.2.1 u hu i hi hlt
+    other := fun b hb => hcp.2.2.2.2.2.2.2.1 b hb
+    open_eq := hcp.2.2.2.2.2.2.2.2.1
+    inv := shrink_inv hcp.2.2.2.2.2.2.2.2.2.1 hfree rfl rfl (pop_count _) }
+
+/-- one `Pop` of a slot that is not captured -/
+theorem ScopeExit.pop {s : VmState} (hinv : UpInv s) (hfree : TopFree s) :
+    ScopeExit 1 s { s with stack := s.stack.pop.1 } := by
+  have hlt : ∀ a ∈ s.openUpvalues, ∀ i, upvalueSlot s.heap a = some i → i < s.stack.count - 1 := by
+    intro a ha i hi
+    have h1 := hinv.bound a ha i hi
+    have h2 : i ≠ s.stack.count - 1 := fun h => hfree a ha (h ▸ hi)
+    omega
+  exact {
+    count := pop_count _
+    below_get := fun i hi => pop_get_lt _ hi
+    frames_eq := rfl
+    globals_eq := rfl
+    closed := fun u hu i hi hle => by have := hlt u hu i hi; omega
+    kept := fun u hu i hi _ => ⟨hu, rfl⟩
+    other := fun _ _ => rfl
+    open_eq := by
+      symm; apply List.filter_eq_self.mpr
+      intro a ha
+      obtain ⟨i, hi⟩ := hinv.core.open_ a ha
+      simp only [below, hi, decide_eq_true_eq]; exact hlt a ha i hi
+    inv := pop_inv hinv hfree }
+
+/-- composition: one slot, then `n` more -/
+theorem ScopeExit.cons {n : Nat} {s s1 s' : VmState} (hinv : UpInv s) (hn : n + 1 ≤ s.stack.count)
+    (h1 : ScopeExit 1 s s1) (h2 : ScopeExit n s1 s') : ScopeExit (n + 1) s s' := by
+  have hc1 : s1.stack.count = s.stack.count - 1 := h1.count
+  have hsub : ∀ a ∈ s1.openUpvalues, a ∈ s.openUpvalues ∧ below s.heap (s.stack.count - 1) a = true := by
+    intro a ha; rw [h1.open_eq, List.mem_filter] at ha; exact ha
+  have hslot : ∀ a ∈ s.openUpvalues, ∀ i, upvalueSlot s.heap a = some i → i < s.stack.count - 1 →
+      a ∈ s1.openUpvalues ∧ upvalueSlot s1.heap a = some i := by
+    intro a ha i hi hlt
+    obtain ⟨hm, hg⟩ := h1.kept a ha i hi hlt
+    exact ⟨hm, by rw [upvalueSlot_congr hg]; exact hi⟩
+  refine {
+    count := by rw [h2.count, hc1]; omega
+    below_get := fun i hi => by
+      rw [h2.below_get i (by rw [hc1]; omega), h1.below_get i (by omega)]
+    frames_eq := h2.frames_eq.trans h1.frames_eq
+    globals_eq := h2.globals_eq.trans h1.globals_eq
+    closed := ?_, kept := ?_, other := ?_, open_eq := ?_
+    inv := h2.inv }
+  · intro u hu i hi hle
+    by_cases htop : s.stack.count - 1 ≤ i
+    · obtain ⟨hg, hnot⟩ := h1.closed u hu i hi htop
+      refine ⟨by rw [h2.other u hnot]; exact hg, ?_⟩
+      intro hm
+      rw [h2.open_eq] at hm
+      exact hnot (List.mem_filter.mp hm).1
+    · have hlt : i < s.stack.count - 1 := by omega
+      obtain ⟨hm, hs1⟩ := hslot u hu i hi hlt
+      have := h2.closed u hm i hs1 (by rw [hc1]; omega)
+      rw [h1.below_get i hlt] at this
+      exact this
+  · intro u hu i hi hlt
+    obtain ⟨hm, hs1⟩ := hslot u hu i hi (by omega)
+    obtain ⟨hm', hg'⟩ := h2.kept u hm i hs1 (by rw [hc1]; omega)
+    exact ⟨hm', hg'.trans (h1.kept u hu i hi (by omega)).2⟩
+  · intro b hb
+    have hb1 : b ∉ s1.openUpvalues := fun h => hb (hsub b h).1
+    rw [h2.other b hb1, h1.other b hb]
+  · rw [h2.open_eq, h1.open_eq, List.filter_filter]
+    apply List.filter_congr
+    intro a ha
+    obtain ⟨i, hi⟩ := hinv.core.open_ a ha
+    by_cases hlt : i < s.stack.count - 1
+    · obtain ⟨_, hs1⟩ := hslot a ha i hi hlt
+      simp only [below, hi, hs1, hc1]
+      rw [Bool.eq_iff_iff]
+      simp only [Bool.and_eq_true, decide_eq_true_eq]
+      omega
+    · have h3 : ¬ i < s.stack.count - (n + 1) := by omega
+      simp only [below, hi, hlt, h3, decide_false, Bool.and_false]
+
+theorem go_instrPop (ip : Nat) (s : VmState) :
+    (Instr.pop ip).go s = (.ok { ip }, { s with stack := s.stack.pop.1 }) := by
+  unfold Instr.pop
+  simp only [go_bind, go_pop, go_pure]
+
+/-- the slots that `scope_end` leaves to a plain `Pop` are not captured (the compiler emits
+    `CloseUpvalue` for every captured local): the `j`-th instruction removes slot `count - 1 - j` -/
+def PopsUncaptured (caps : List Bool) (s : VmState) : Prop :=
+  ∀ j, caps[j]? = some false → ∀ a ∈ s.openUpvalues, upvalueSlot s.heap a ≠ some (s.stack.count - 1 - j)
+
+/-- **`scope_end_closes_all`**: executing the `k` consecutive `CloseUpvalue`/`Pop` instructions that
+    `scope_end` emits for `k` locals (captured ones as `CloseUpvalue`), from a well-formed state
+    with the `k` locals on top of the stack, succeeds and
+
+    * closes exactly the upvalues of those `k` slots — *all* of them, each holding its slot's value;
+    * removes the `k` slots;
+    * leaves everything below, all other upvalues (still open), every other object, the frames and
+      the globals untouched, and the invariant intact.
+
+    (On the pinned tree `CloseUpvalue` did not remove the slot, so a second `CloseUpvalue` looked at
+    the same top slot and the lower captured local stayed open.) -/
+theorem scope_end_closes_all : ∀ (caps : List Bool) {s : VmState}, UpInv s →
+    caps.length ≤ s.stack.count → PopsUncaptured caps s →
+    ∃ s', (scopeExit caps).go s = (.ok ⟨⟩, s') ∧ ScopeExit caps.length s s' := by
+  intro caps
+  induction caps with
+  | nil => intro s hinv _ _; exact ⟨s, rfl, ScopeExit.zero hinv⟩
+  | cons c rest ih =>
+    intro s hinv hk hpops
+    simp only [List.length_cons] at hk
+    have h0 : s.stack.count ≠ 0 := by omega
+    -- the state after the first instruction
+    have hstep : ∃ s1, ScopeExit 1 s s1 ∧
+        (scopeExit (c :: rest)).go s = (scopeExit rest).go s1 := by
+      cases c with
+      | true =>
+        refine ⟨_, ScopeExit.close hinv h0, ?_⟩
+        show (Instr.closeUpvalue 0 >>= fun _ => scopeExit rest).go s = _
+        rw [go_bind, go_closeUpvalue, if_neg h0]
+      | false =>
+        have hfree : TopFree s := fun a ha => by
+          have := hpops 0 rfl a ha
+          simpa using this
+        refine ⟨_, ScopeExit.pop hinv hfree, ?_⟩
+        show (Instr.pop 0 >>= fun _ => scopeExit rest).go s = _
+        rw [go_bind, go_instrPop]
+    obtain ⟨s1, h1, hgo⟩ := hstep
+    have hc1 : s1.stack.count = s.stack.count - 1 := h1.count
+    have hpops1 : PopsUncaptured rest s1 := by
+      intro j hj a ha hs
+      rw [h1.open_eq, List.mem_filter] at ha
+      obtain ⟨i, hi⟩ := hinv.core.open_ a ha.1
+      have hb := ha.2
+      simp only [below, hi, decide_eq_true_eq] at hb
+      have hs1 : upvalueSlot s1.heap a = some i := by
+        rw [upvalueSlot_congr (h1.kept a ha.1 i hi hb).2]; exact hi
+      rw [hs1, hc1] at hs
+      refine hpops (j + 1) (by simpa using hj) a ha.1 ?_
+      rw [hi]
+      simp only [Option.some.injEq] at hs ⊢
+      omega
+    obtain ⟨s', hgo', h2⟩ := ih h1.inv (by rw [hc1]; omega) hpops1
+    exact ⟨s', by rw [hgo, hgo'], ScopeExit.cons hinv (by omega) h1 h2⟩
+
 /-! ## 5b. the invariant and the other capture instructions -/
 
 /-- the relation "`UpInv` is kept" -/
@@ -1188,6 +1391,30 @@ def demo6 : VmState :=
 
 example : closureUps demo6.heap 1 = some [3, 4, 5] ∧ upvalueSlot demo6.heap 5 = some 2 ∧
     closedVal demo6.heap 3 = some (.int 99) ∧ demo6.openUpvalues = [5] ∧ upInvB demo6 = true := by decide
+
+/-- **two captured locals in one scope** (`{ a = …; b = …; || a + b }`): `demo3` with the two
+    captured variables (slots 2 and 3, upvalues 3 and 4) on top of the stack; `scope_end` emits
+    `CloseUpvalue; CloseUpvalue`.  Both upvalues are closed with their variables' values and both
+    slots are gone — through the real `step` as well.  (Before the repair the second
+    `CloseUpvalue` saw slot 3 again and upvalue 3 stayed open, pointing at a dead slot.) -/
+def exitProg : Prog := { bytecode := #[46, 46], data := #[], labels := [], varNames := [], trace := [] }
+def demo7 : VmState := { demo3 with stack := { demo3.stack with count := 4 } }
+def demo8 : VmState := ((scopeExit [true, true]).go demo7).2
+
+example : upInvB demo7 = true ∧ demo7.openUpvalues = [4, 3] ∧
+    closedVal demo8.heap 4 = some (.int 40) ∧ closedVal demo8.heap 3 = some (.int 30) ∧
+    demo8.openUpvalues = [] ∧ demo8.stack.count = 2 ∧ demo8.stack.get 1 = .int 20 ∧
+    closureUps demo8.heap 1 = some [3, 4] ∧ upInvB demo8 = true := by decide
+
+example :
+    let s1 := ((step exitProg noReenter 0).go demo7).2
+    let s2 := ((step exitProg noReenter 1).go s1).2
+    closedVal s1.heap 4 = some (.int 40) ∧ s1.openUpvalues = [3] ∧ s1.stack.count = 3 ∧
+    closedVal s2.heap 3 = some (.int 30) ∧ s2.openUpvalues = [] ∧ s2.stack.count = 2 := by decide
+
+example : UpInv demo7 ∧ PopsUncaptured [true, true] demo7 :=
+  ⟨upInv_of_check (by decide), fun j hj => by
+    rcases j with _ | _ | j <;> simp at hj⟩
 
 /-- `Return` from the running frame closes its upvalues and cuts the stack back -/
 example : (retState demo3 ⟨0, 0, 2, none⟩).stack.count = 2 ∧ (retState demo3 ⟨0, 0, 2, none⟩).openUpvalues = [] ∧
